@@ -99,6 +99,9 @@ def apply_model(sym, n, f, vals, mut_idx, st):
     if p in ("std::convert::Into::into", "std::convert::From::from") and len(vals) == 1:
         return V(vals[0])
 
+    if p == "std::ops::Index::index" and len(vals) == 2 and (vals[1] == ("adt", "RangeFull", "RangeFull", ()) or (vals[1][0] == "zst" and "RangeFull" in str(vals[1]))):
+        return V(vals[0])       # x[..] is x
+
     # ---- Option ------------------------------------------------------------------------------------------
     if p.startswith("std::option::Option::"):
         o = vals[0] if vals else None
